@@ -88,6 +88,22 @@ func Hmac(data, wrapperKey, salt, info []byte) string {
 	return HmacPrefix + base64.RawURLEncoding.EncodeToString(m.Sum(nil))
 }
 
+// HmacKey derives the HMAC key of a configuration once; HmacWithKey then costs one HMAC per value.
+func HmacKey(wrapperKey, salt, info []byte) []byte {
+	r := hkdf.New(sha256.New, wrapperKey, salt, info)
+	key := make([]byte, 32)
+	if _, err := io.ReadFull(r, key); err != nil {
+		panic(err)
+	}
+	return key
+}
+
+func HmacWithKey(key, data []byte) string {
+	m := hmac.New(sha256.New, key)
+	m.Write(data)
+	return HmacPrefix + base64.RawURLEncoding.EncodeToString(m.Sum(nil))
+}
+
 // EventKey derives the per-event wrapper key as documented: HKDF-SHA256(base key, salt=eventId,
 // info=nil) -> 32 byte seed -> the Ed25519 PUBLIC key of that seed is the AES-256 key.
 func EventKey(baseKey []byte, eventID string) []byte {
